@@ -13,6 +13,7 @@ type Options struct {
 	Flat     bool // single-line forms only (no NL inside compound lists)
 	NoNested bool // no command substitutions
 	HDBias   bool // prefer here-documents among redirections
+	LeadHD   bool // start the complete command with `cmd <<E ;` so that a here-document is pending on the whole first line
 }
 
 type G struct {
@@ -74,6 +75,32 @@ func (g *G) Program() *Program {
 		}
 		cl.Items = append(cl.Items, ao)
 	}
+	if g.O.LeadHD {
+		g.nhd++
+		lead := &Cmd{K: "simple", Name: LW(pickS(g, []string{"cat", "lead"}))}
+		r := &Redir{HD: g.heredoc()}
+		r.Op = "<<"
+		if r.HD.Dash {
+			r.Op = "<<-"
+		}
+		r.W = r.HD.Delim
+		lead.Post = []Item{{R: r}}
+		switch g.n(4) {
+		case 0:
+			first := cl.Items[0]
+			first.First.Cmds = append([]*Cmd{lead}, first.First.Cmds...) // lead | first…
+			if first.First.Bang {
+				first.First.Bang = false
+			}
+			first.First.NLs = append([]bool{g.p(1, 2)}, first.First.NLs...)
+		case 1:
+			first := cl.Items[0]
+			first.Rest = append([]AOItem{{Op: pickS(g, []string{"&&", "||"}), NL: g.p(1, 2), P: first.First}}, first.Rest...)
+			first.First = Pipe(lead)
+		default:
+			cl.Items = append([]*AndOr{{First: Pipe(lead), Sep: pickS(g, []string{";", ";", "&"})}}, cl.Items...)
+		}
+	}
 	return &Program{List: cl}
 }
 
@@ -82,7 +109,7 @@ func (g *G) pair(parent, child string) { g.Pairs[parent+">"+child]++ }
 func (g *G) andor(parent string) *AndOr {
 	ao := &AndOr{First: g.pipeline(parent)}
 	for g.budget > 0 && g.p(1, 5) && len(ao.Rest) < 3 {
-		ao.Rest = append(ao.Rest, AOItem{Op: pickS(g, []string{"&&", "||"}), P: g.pipeline("andor")})
+		ao.Rest = append(ao.Rest, AOItem{Op: pickS(g, []string{"&&", "||"}), NL: !g.O.Flat && g.p(1, 4), P: g.pipeline("andor")})
 	}
 	return ao
 }
@@ -91,6 +118,7 @@ func (g *G) pipeline(parent string) *Pipeline {
 	p := &Pipeline{Bang: g.p(1, 10)}
 	p.Cmds = append(p.Cmds, g.cmd(parent))
 	for g.budget > 0 && g.p(1, 6) && len(p.Cmds) < 3 {
+		p.NLs = append(p.NLs, !g.O.Flat && g.p(1, 4))
 		p.Cmds = append(p.Cmds, g.cmd("pipe"))
 	}
 	return p
@@ -491,7 +519,7 @@ func (g *G) nestedBQ() *CList {
 // clist generates a compound list; needTerm: the closing token is a reserved
 // word, so the last and-or list must end in a separator or a newline.
 func (g *G) clist(parent string, needTerm bool) *CList {
-	cl := &CList{}
+	cl := &CList{LeadNL: !g.O.Flat && g.p(1, 4)}
 	n := 1
 	if g.budget > 2 && g.p(2, 5) {
 		n += g.n(3)
